@@ -40,6 +40,6 @@ def run(tier, seed):
 
 
 MANIFEST = {
-    "text": "The real search-path functions run with a symbolic stat() answer table: the result must be <first-added directory holding a regular file>/<name> as a fresh string, absolute names bypass the list, none -> NULL. The real cfg_tilde_expand() runs on every short name: the account looked up is exactly the text between ~ and the first slash (terminated inside its buffer), the result is home+rest or an unchanged copy.",
+    "text": "The real search-path functions run with a symbolic stat() answer table: the result must be <first-added directory holding a regular file>/<name> as a fresh string, absolute names bypass the list, none -> NULL. The real cfg_tilde_expand() runs on every short name: the account looked up is exactly the text between ~ and the first slash (terminated inside its buffer), the result is home+rest or an unchanged copy. include() is shown to choose search path vs tilde expansion on the real cfg_lexer_include(); tilde expansion is also run with one failing allocation; rejected candidates of a look-up are released.",
     "note": "File system and passwd database replaced by recording stubs with symbolic answers.",
 }
